@@ -27,7 +27,8 @@ fn keys() -> Vec<(String, PrivateKey)> {
 }
 
 fn texts() -> Vec<&'static str> {
-    vec!["plain", "", "line\nbreak", "back\\slash", "quote\"d", "tab\there", "nul\u{0}ctl\u{1f}", "\u{e9}\u{20ac}\u{1F600}", "mix \\n and \n", "\\\\n", "trailing\\"]
+    vec!["plain", "", "line\nbreak", "back\\slash", "quote\"d", "tab\there", "nul\u{0}ctl\u{1f}", "\u{e9}\u{20ac}\u{1F600}", "mix \\n and \n", "\\\\n", "trailing\\",
+         "crlf\r\nend", "cr\rend", "lfcr\n\rend", " lead and trail ", "MiXeD Case", ".dotfile", "a//b/./c/"]
 }
 
 fn meta(text: &str) -> MetadataWrapper {
@@ -98,6 +99,26 @@ fn shapes() -> Vec<(String, MetadataWrapper)> {
         out.push((format!("layout/threshold-{}/rules-{}/keys-{}", th, with_rules, with_keys), MetadataWrapper::Layout(b.build().unwrap())));
     } } }
     out.push(("layout/empty".into(), MetadataWrapper::Layout(LayoutMetadataBuilder::new().expires(whole).build().unwrap())));
+    // key tables holding keys of every type built through every public constructor (with and without a hash-algorithm list)
+    {
+        use in_toto::crypto::PublicKey;
+        let ed_raw = key(3).public().as_bytes().to_vec();
+        let ec = PrivateKey::from_pkcs8(&std::fs::read("/repo/tests/ecdsa/ec.pk8.der").unwrap(), SignatureScheme::EcdsaP256Sha256).unwrap();
+        let ec_raw = ec.public().as_bytes().to_vec();
+        let rsa = PublicKey::from_spki(&std::fs::read("/repo/tests/rsa/rsa-2048.spki.der").unwrap(), SignatureScheme::RsaSsaPssSha256).unwrap();
+        let tables: Vec<(&str, Vec<PublicKey>)> = vec![
+            ("ed25519-raw-no-list", vec![PublicKey::from_ed25519(ed_raw.clone()).unwrap()]),
+            ("ecdsa-raw-no-list", vec![PublicKey::from_ecdsa(ec_raw.clone()).unwrap()]),
+            ("ecdsa-raw-with-list", vec![PublicKey::from_ecdsa_with_keyid_hash_algorithms(ec_raw.clone(), Some(vec!["sha256".into(), "sha512".into()])).unwrap()]),
+            ("ed25519-raw-with-list", vec![PublicKey::from_ed25519_with_keyid_hash_algorithms(ed_raw.clone(), Some(vec!["sha256".into()])).unwrap()]),
+            ("all-types-together", vec![PublicKey::from_ed25519(ed_raw).unwrap(), PublicKey::from_ecdsa(ec_raw).unwrap(), ec.public().clone(), rsa, key(4).public().clone()]),
+        ];
+        for (id, ks) in tables {
+            let mut b = LayoutMetadataBuilder::new().expires(whole).add_step(Step::new("s"));
+            for k in ks { b = b.add_key(k); }
+            out.push((format!("layout/key-table/{}", id), MetadataWrapper::Layout(b.build().unwrap())));
+        }
+    }
     out
 }
 
@@ -229,6 +250,31 @@ pub fn run_c11(r: &mut Report) {
         let lib_sig = serde_json::to_value(&mb.signatures[0]).unwrap();
         let ref_sig = serde_json::to_value(&sig_ref).unwrap();
         let _ = olpc_string;
+        // the other direction: a document produced OUTSIDE the library (the text substituted into the JSON tree, signed over its
+        // reference bytes) is read and verified by the library.  Texts of the class the open C11 findings describe (control
+        // characters, backslash followed by `n`) are left to the signing-direction cases, which report them as known findings.
+        if !t.chars().any(|c| (c as u32) < 0x20) && !t.contains("\\n") {
+            for (kind, skel_md) in rich("PLACEHOLDERQ", false) {
+                let skel = serde_json::to_value(&Metablock::new(skel_md, &[&k]).unwrap()).unwrap();
+                fn subst(v: &serde_json::Value, t: &str) -> serde_json::Value {
+                    match v {
+                        serde_json::Value::String(s) => serde_json::Value::String(s.replace("PLACEHOLDERQ", t)),
+                        serde_json::Value::Array(a) => serde_json::Value::Array(a.iter().map(|x| subst(x, t)).collect()),
+                        serde_json::Value::Object(o) => serde_json::Value::Object(o.iter().map(|(kk, x)| (kk.replace("PLACEHOLDERQ", t), subst(x, t))).collect()),
+                        other => other.clone(),
+                    }
+                }
+                let signed = subst(&skel["signed"], t);
+                let mut refb = String::new();
+                olpc(&signed, &mut refb);
+                let sig = serde_json::to_value(&k.sign(refb.as_bytes()).unwrap()).unwrap();
+                let doc = json!({"signatures": [sig], "signed": signed});
+                let parsed: Result<Metablock, _> = serde_json::from_str(&doc.to_string());
+                let obs = match &parsed { Ok(m) => match no_panic(|| m.verify(1, [k.public()])) { Ok(Ok(_)) => "verified".to_string(), Ok(Err(e)) => format!("verify: {}", e), Err(p) => format!("panic: {}", p) }, Err(e) => format!("parse: {}", e) };
+                r.case(&format!("external-{}-{:?}", kind, t), json!({"text": t, "document": kind, "reference_bytes": refb.chars().take(400).collect::<String>()}),
+                       "a document signed over its reference canonical bytes outside the library parses and verifies", obs.clone(), obs == "verified");
+            }
+        }
         r.case(&format!("olpc-{:?}", t), json!({"text": t, "reference_bytes": reference}), "ed25519 signature over the OLPC reference bytes equals the library's signature",
                format!("lib={} ref={}", lib_sig["sig"], ref_sig["sig"]), lib_sig["sig"] == ref_sig["sig"]);
     }
